@@ -15,7 +15,7 @@
    What stays cited: the lift from corresponding vector fields + corresponding initial points to coinciding curves
    (Picard-Lindeloef uniqueness), for the continuous-time models.  The discrete-time pair is an exact recurrence and
    is proved for every number of steps.  Not proved: the full (s,i) effective degree model (numerical only). *)
-From EoNV Require Import Prelude Graph Vec VecP Aux AuxP IC Wrappers ICP Pgf C07xPoly C07xHier C07xIC C07xPref Rhs.
+From EoNV Require Import Prelude Graph Vec VecP Aux AuxP IC Wrappers ICP Pgf C07xPoly C07xHier C07xIC C07xPref C07xMf Rhs.
 
 (* ---------- the formal derivative is the derivative ---------- *)
 Theorem C07x_formal_derivative_is_derivative : forall (F : pmap) x h,
@@ -139,6 +139,24 @@ Theorem C07x_dict_pgf_is_polynomial : forall d x, NoDup (map fst d) ->
   pk_psi d x == peval (pk_coeffs d) x /\ (~ x == 0 -> pk_psiP d x == D (pk_coeffs d) x).
 Proof. exact dict_pgf_is_polynomial. Qed.
 
+(* ---------- regular graphs: heterogeneous mean-field SIR -> homogeneous mean-field SIR, chain rule no longer assumed ---------- *)
+(* supersedes C07_lump_SIR_heterogeneous_meanfield_regular_partial: (theta, r) |-> (S, I) = (s0 theta^k, N - s0 theta^k - r);
+   the push-forward of the big field uses the formal derivative of the polynomial s0 x^k *)
+Theorem C07x_lump_SIR_heterogeneous_meanfield_regular : forall t tau g k theta r s0 N,
+  ~ Qnat k == 0 -> ~ N == 0 -> ~ theta == 0 ->
+  let Sp := pmono s0 k in
+  let S := peval Sp theta in
+  let I := N - S - r in
+  let small := dSIR_homogeneous_meanfield [S; I] t (Qnat k / N) tau g in
+  let big := dSIR_heterogeneous_meanfield ([theta] ++ unitv k r) t (unitv k s0) (unitv k N) tau g in
+  D Sp theta * vnth 0 big == vnth 0 small /\
+  - (D Sp theta * vnth 0 big) - g * I == vnth 1 small /\
+  veq (slice_from 1 big) (unitv k (g * I)).
+Proof. exact lump_SIR_heterogeneous_meanfield_regular. Qed.
+Example C07x_nonvacuous_lump_SIR_hmf :
+  ~ Qnat 3 == 0 /\ ~ vnth 0 (dSIR_heterogeneous_meanfield ([1 # 2] ++ unitv 3 1) 0 (unitv 3 9) (unitv 3 10) (1 # 2) 1) == 0.
+Proof. split; intro H; vm_compute in H; discriminate. Qed.
+
 (* ---------- non-vacuity ---------- *)
 (* P = (0, 1/4, 1/2, 1/4), rho = 1/10, N = 100, tau = 1/2, gamma = 1, theta = 1/2, R = 3: the hypotheses hold and the
    compact pairwise field on the manifold is not zero *)
@@ -195,6 +213,8 @@ Print Assumptions C07x_prefmix_uncorrelated_cts.
 Print Assumptions C07x_prefmix_embedding.
 Print Assumptions C07x_prefmix_uncorrelated_discrete.
 Print Assumptions C07x_dict_pgf_is_polynomial.
+Print Assumptions C07x_lump_SIR_heterogeneous_meanfield_regular.
+Print Assumptions C07x_nonvacuous_lump_SIR_hmf.
 Print Assumptions C07x_nonvacuous_hierarchy.
 Print Assumptions C07x_nonvacuous_graph.
 Print Assumptions C07x_nonvacuous_prefmix.
